@@ -10,7 +10,8 @@ Record tcase := TC {
   i_trace : list (Z * Z);            (* implementation: (tid, site) per step *)
   i_results : list (list (Z * Z));   (* per thread, oldest first; tags below *)
   i_status : Z;                      (* 0 done, 1 deadlock, 2 budget, 3 crash (signal), 4 AddressSanitizer report *)
-  i_ttr : Z; i_flags : Z; i_inprog : Z; i_count : Z; i_alive : Z; i_q : Z }.
+  i_ttr : Z; i_flags : Z; i_inprog : Z; i_count : Z; i_alive : Z; i_q : Z;
+  i_dret : Z }.                      (* index of the first step after the destructor of a non-detached task returned; -1: none *)
 
 (* result tags *)
 Definition t_calls := 1. Definition t_start := 2. Definition t_uafcall := 3. Definition t_badcall := 4.
@@ -51,14 +52,15 @@ Record scan_st := SS {
 
 Definition zmem (t : Z) (l : list Z) : bool := existsb (Z.eqb t) l.
 
-Definition scan_step (rets : list bool) (a : scan_st) (e : Z * Z) : scan_st :=
+Definition scan_step (rets : list bool) (dpos : Z) (a : scan_st) (e : Z * Z) : scan_st :=
   let '(t, s) := e in
   let prev := first_of t (pre a) in
   let start := s =? s_wrap_call in
   let clean_t := opt_is prev s_wrap_flags && zmem t (clean a) in
   let late_c := start && canc a in
   let late_f := start && falsed a in
-  let late_d := is_access s && dret a in
+  (* the destructor has returned: it executed func = {} (its last step), or -- whatever path it took -- the harness saw it return *)
+  let late_d := is_access s && (dret a || ((0 <=? dpos) && (dpos <=? Z.of_nat (length (pre a))))) in
   let in_dom_d := (t =? 0) && infl a in
   let sched_prev := first_of 0 (pre a) in
   let infl' := if s =? s_dtor_spin
@@ -79,7 +81,7 @@ Definition scan_step (rets : list bool) (a : scan_st) (e : Z * Z) : scan_st :=
      (o_cancel a || (late_c && negb clean_t)) (o_dtor a || (late_d && negb in_dom_d)) (o_false a || (late_f && negb clean_t)).
 
 Definition scan0 : scan_st := SS [] O false false false false false false [] false false false false false false.
-Definition scan (rets : list bool) (tr : list (Z * Z)) : scan_st := fold_left (scan_step rets) tr scan0.
+Definition scan (rets : list bool) (dpos : Z) (tr : list (Z * Z)) : scan_st := fold_left (scan_step rets dpos) tr scan0.
 
 (* ---------- agreement with the model ---------- *)
 Definition model_results (s : state) (npool : nat) : list (list (Z * Z)) :=
@@ -117,7 +119,7 @@ Definition agrees (c : tcase) : bool :=
    + 100 when the model run saw an empty func being called (std::bad_function_call), + 200 when it saw a closure
    use-after-free that is not after the destructor's return (wrapper's func = {} while the closure is in use). *)
 Definition judge_tt (c : tcase) : Z :=
-  let a := scan (c_rets c) (i_trace c) in
+  let a := scan (c_rets c) (i_dret c) (i_trace c) in
   let '(s, _, _) := model_run c (if i_status c <? 3 then c_fuel c else length (i_trace c)) in
   let obs := (if 0 <? badcall (g s) then 100 else 0) + (if (0 <? uaf (g s)) && (late_acc (g s) =? 0) then 200 else 0) in
   let mask := b2z (v_cancel a) + 2 * b2z (v_dtor a) + 4 * b2z (v_false a) in
